@@ -134,10 +134,8 @@ class TabularMarkovDecisionProcess(MarkovDecisionProcess):
         except AttributeError:
             pass
         logger.info("Action space unspecified; performing reachability analysis.")
-        actions = set([])
-        for s in self.state_list:
-            for a in self._cached_actions(s):
-                actions.add(a)
+        # first-occurrence order, so that the fallback for unsortable actions does not depend on hash randomisation
+        actions = dict.fromkeys(a for s in self.state_list for a in self._cached_actions(s))
         try:
             return domaintuple(sorted(actions))
         except TypeError: #unsortable action representation
